@@ -175,6 +175,7 @@ func (t *Table) Format(w io.Writer) error {
 		// target), and then distributing the remaining space
 		// among the narrower ones.
 		spanCols = spanCols[:0]
+		w0 := w
 		for col := cell.col; col < cell.col+cell.span; col++ {
 			if shrink(col) {
 				// We can't grow a shrink column, so
@@ -182,6 +183,15 @@ func (t *Table) Format(w io.Writer) error {
 				// add it to the columns to adjust.
 				w -= ws[col]
 			} else {
+				spanCols = append(spanCols, col)
+			}
+		}
+		if len(spanCols) == 0 {
+			// Every spanned column is a shrink column, but
+			// the cell still has to fit or it would run into
+			// the following columns. Grow them after all.
+			w = w0
+			for col := cell.col; col < cell.col+cell.span; col++ {
 				spanCols = append(spanCols, col)
 			}
 		}
